@@ -10,4 +10,809 @@ import SodiumModel.Proofs.Utils
 open Sodium Sodium.Model
 namespace Sodium
 
+/-! ### lists of full blocks -/
+
+/-- every block of `bs` has exactly `W` bytes -/
+def AllLen (W : Nat) (bs : List Bytes) : Prop := ∀ b ∈ bs, b.length = W
+
+theorem AllLen.nil (W : Nat) : AllLen W [] := by intro b hb; cases hb
+
+theorem AllLen.cons {W : Nat} {b : Bytes} {bs : List Bytes} (hb : b.length = W) (h : AllLen W bs) :
+    AllLen W (b :: bs) := by
+  intro x hx
+  rcases List.mem_cons.mp hx with rfl | hx
+  · exact hb
+  · exact h x hx
+
+theorem AllLen.append {W : Nat} {as bs : List Bytes} (ha : AllLen W as) (hb : AllLen W bs) :
+    AllLen W (as ++ bs) := by
+  intro x hx
+  rcases List.mem_append.mp hx with hx | hx
+  · exact ha x hx
+  · exact hb x hx
+
+theorem AllLen.snoc {W : Nat} {b : Bytes} {bs : List Bytes} (h : AllLen W bs) (hb : b.length = W) :
+    AllLen W (bs ++ [b]) := h.append (AllLen.cons hb (AllLen.nil W))
+
+theorem AllLen.flatten_length {W : Nat} : ∀ {bs : List Bytes}, AllLen W bs → bs.flatten.length = W * bs.length
+  | [], _ => by simp
+  | b :: bs, h => by
+    have h1 : b.length = W := h b (by simp)
+    have h2 := AllLen.flatten_length (W := W) (bs := bs) (fun x hx => h x (by simp [hx]))
+    simp [h1, h2, Nat.mul_add]
+    omega
+
+/-! ### `blocks` -/
+
+theorem blocksAux_fuel (W : Nat) (hW : 0 < W) : ∀ (f1 f2 : Nat) (m : Bytes), m.length ≤ f1 → m.length ≤ f2 →
+    Spec.Sha256.blocksAux W f1 m = Spec.Sha256.blocksAux W f2 m := by
+  intro f1
+  induction f1 with
+  | zero =>
+    intro f2 m h1 h2
+    have : m = [] := List.eq_nil_of_length_eq_zero (by omega)
+    subst this
+    cases f2 <;> simp [Spec.Sha256.blocksAux]
+  | succ f1 ih =>
+    intro f2 m h1 h2
+    cases m with
+    | nil => cases f2 <;> simp [Spec.Sha256.blocksAux]
+    | cons x xs =>
+      cases f2 with
+      | zero => simp at h2
+      | succ f2 =>
+        simp only [Spec.Sha256.blocksAux, List.isEmpty_cons, Bool.false_eq_true, if_false]
+        congr 1
+        apply ih
+        · simp at h1 ⊢; omega
+        · simp at h2 ⊢; omega
+
+theorem blocks_nil (W : Nat) : Spec.Sha256.blocks W [] = [] := by
+  simp [Spec.Sha256.blocks, Spec.Sha256.blocksAux]
+
+theorem blocks_cons_block (W : Nat) (hW : 0 < W) (b rest : Bytes) (hb : b.length = W) :
+    Spec.Sha256.blocks W (b ++ rest) = b :: Spec.Sha256.blocks W rest := by
+  unfold Spec.Sha256.blocks
+  have hl : (b ++ rest).length = (W - 1 + rest.length) + 1 := by simp [hb]; omega
+  rw [hl]
+  have hne : (b ++ rest).isEmpty = false := by
+    cases b with
+    | nil => simp at hb; omega
+    | cons x xs => rfl
+  simp only [Spec.Sha256.blocksAux, hne, Bool.false_eq_true, if_false]
+  have ht : (b ++ rest).take W = b := by rw [← hb]; simp
+  have hd : (b ++ rest).drop W = rest := by rw [← hb]; simp
+  rw [ht, hd]
+  congr 1
+  exact blocksAux_fuel W hW _ _ rest (by omega) (Nat.le_refl _)
+
+theorem blocks_flatten_append (W : Nat) (hW : 0 < W) : ∀ (bs : List Bytes) (t : Bytes), AllLen W bs →
+    Spec.Sha256.blocks W (bs.flatten ++ t) = bs ++ Spec.Sha256.blocks W t
+  | [], t, _ => by simp
+  | b :: bs, t, h => by
+    have h1 : b.length = W := h b (by simp)
+    have h2 := blocks_flatten_append W hW bs t (fun x hx => h x (by simp [hx]))
+    simp only [List.flatten_cons, List.append_assoc, List.cons_append]
+    rw [blocks_cons_block W hW b _ h1, h2]
+
+/-- a non-empty string of at most `W` bytes is a single block -/
+theorem blocks_single (W : Nat) (t : Bytes) (h0 : 0 < t.length) (h1 : t.length ≤ W) :
+    Spec.Sha256.blocks W t = [t] := by
+  unfold Spec.Sha256.blocks
+  obtain ⟨n, hn⟩ : ∃ n, t.length = n + 1 := ⟨t.length - 1, by omega⟩
+  rw [hn]
+  have hne : t.isEmpty = false := by
+    cases t with
+    | nil => simp at h0
+    | cons x xs => rfl
+  simp only [Spec.Sha256.blocksAux, hne, Bool.false_eq_true, if_false]
+  rw [List.take_of_length_le h1, List.drop_of_length_le h1]
+  cases n <;> simp [Spec.Sha256.blocksAux]
+
+theorem sha512_blocksAux_eq (W : Nat) : ∀ (f : Nat) (m : Bytes),
+    Spec.Sha512.blocksAux W f m = Spec.Sha256.blocksAux W f m
+  | 0, _ => rfl
+  | f + 1, m => by
+    simp only [Spec.Sha512.blocksAux, Spec.Sha256.blocksAux, sha512_blocksAux_eq W f]
+
+theorem sha512_blocks_eq (W : Nat) (m : Bytes) : Spec.Sha512.blocks W m = Spec.Sha256.blocks W m :=
+  sha512_blocksAux_eq W _ m
+
+theorem blake2b_blocksAux_eq (W : Nat) : ∀ (f : Nat) (m : Bytes),
+    Spec.Blake2b.blocksAux W f m = Spec.Sha256.blocksAux W f m
+  | 0, _ => rfl
+  | f + 1, m => by
+    simp only [Spec.Blake2b.blocksAux, Spec.Sha256.blocksAux, blake2b_blocksAux_eq W f]
+
+theorem blake2b_blocks_eq (W : Nat) (m : Bytes) : Spec.Blake2b.blocks W m = Spec.Sha256.blocks W m :=
+  blake2b_blocksAux_eq W _ m
+
+theorem chunks16_eq : ∀ (f : Nat) (m : Bytes), Spec.Poly1305.chunks16 f m = Spec.Sha256.blocksAux 16 f m
+  | 0, _ => rfl
+  | f + 1, m => by
+    simp only [Spec.Poly1305.chunks16, Spec.Sha256.blocksAux, chunks16_eq f]
+
+theorem chunks16_blocks (m : Bytes) : Spec.Poly1305.chunks16 (m.length + 1) m = Spec.Sha256.blocks 16 m := by
+  rw [chunks16_eq]
+  exact blocksAux_fuel 16 (by omega) _ _ m (by omega) (Nat.le_refl _)
+
+/-! ### the block loops -/
+
+theorem mdBlocks_spec {σ : Type} (C : σ → Bytes → σ) (W : Nat) (hW : 0 < W) :
+    ∀ (fuel : Nat) (h : σ) (m : Bytes), m.length ≤ fuel →
+      ∃ bs : List Bytes, AllLen W bs ∧ m = bs.flatten ++ (mdBlocks C W fuel h m).2 ∧
+        (mdBlocks C W fuel h m).2.length < W ∧ (mdBlocks C W fuel h m).1 = bs.foldl C h := by
+  intro fuel
+  induction fuel with
+  | zero =>
+    intro h m hm
+    have : m = [] := List.eq_nil_of_length_eq_zero (by omega)
+    subst this
+    exact ⟨[], AllLen.nil W, by simp [mdBlocks], by simpa [mdBlocks] using hW, by simp [mdBlocks]⟩
+  | succ fuel ih =>
+    intro h m hm
+    by_cases hge : m.length ≥ W
+    · have hc : m.length ≥ W ∧ W > 0 := ⟨hge, hW⟩
+      simp only [mdBlocks, hc, and_self, if_true]
+      obtain ⟨bs, hbs, hm', hlt, hh⟩ := ih (C h (m.take W)) (m.drop W) (by simp; omega)
+      refine ⟨m.take W :: bs, AllLen.cons (by simp; omega) hbs, ?_, hlt, ?_⟩
+      · simp only [List.flatten_cons, List.append_assoc]
+        rw [← hm', List.take_append_drop]
+      · simpa using hh
+    · have hc : ¬ (m.length ≥ W ∧ W > 0) := fun hc => hge hc.1
+      simp only [mdBlocks, hc, if_false]
+      exact ⟨[], AllLen.nil W, by simp, by omega, by simp⟩
+
+theorem polyBlocks_eq_mdBlocks {σ : Type} (blk : σ → Bytes → Bool → σ) :
+    ∀ (fuel : Nat) (st : σ) (m : Bytes),
+      polyBlocks blk fuel st m = mdBlocks (fun s b => blk s b true) 16 fuel st m
+  | 0, _, _ => rfl
+  | fuel + 1, st, m => by
+    simp only [polyBlocks, mdBlocks, polyBlocks_eq_mdBlocks blk fuel]
+    simp
+
+/-! ### Poly1305 -/
+
+/-- state after absorbing `m`: the full 16-byte blocks `bs` have gone through `blk … true`, the rest is buffered -/
+def PolyInv {σ : Type} (blk : σ → Bytes → Bool → σ) (st0 : σ) (s : PolyState σ) (m : Bytes) : Prop :=
+  ∃ bs : List Bytes, AllLen 16 bs ∧ m = bs.flatten ++ s.buffer ∧ s.buffer.length < 16 ∧
+    s.st = bs.foldl (fun st b => blk st b true) st0
+
+theorem polyUpdate_inv {σ : Type} (blk : σ → Bytes → Bool → σ) (st0 : σ) (s : PolyState σ) (m c : Bytes)
+    (h : PolyInv blk st0 s m) : PolyInv blk st0 (polyUpdate blk s c) (m ++ c) := by
+  obtain ⟨bs, hbs, hm, hlt, hst⟩ := h
+  unfold polyUpdate
+  by_cases hb : s.buffer.length > 0
+  · simp only [hb, if_true]
+    by_cases hshort : (s.buffer ++ c.take (min (16 - s.buffer.length) c.length)).length < 16
+    · simp only [hshort, if_true]
+      have hw : min (16 - s.buffer.length) c.length = c.length := by
+        simp at hshort; omega
+      rw [hw, List.take_length]
+      refine ⟨bs, hbs, by simp [hm], ?_, hst⟩
+      rw [hw] at hshort; simpa using hshort
+    · simp only [hshort, if_false]
+      have hw : min (16 - s.buffer.length) c.length = 16 - s.buffer.length := by
+        simp at hshort; omega
+      have hcl : 16 - s.buffer.length ≤ c.length := by simp at hshort; omega
+      rw [hw]
+      rw [polyBlocks_eq_mdBlocks]
+      obtain ⟨bs2, hbs2, hm2, hlt2, hst2⟩ := mdBlocks_spec (fun s b => blk s b true) 16 (by omega)
+        (c.drop (16 - s.buffer.length)).length
+        (blk s.st (s.buffer ++ c.take (16 - s.buffer.length)) true) (c.drop (16 - s.buffer.length)) (Nat.le_refl _)
+      refine ⟨bs ++ (s.buffer ++ c.take (16 - s.buffer.length)) :: bs2, ?_, ?_, ?_, ?_⟩
+      · exact hbs.append (AllLen.cons (by simp; omega) hbs2)
+      · simp only [List.nil_append, List.flatten_append, List.flatten_cons, List.append_assoc]
+        rw [← hm2, List.take_append_drop, hm, List.append_assoc]
+      · simpa using hlt2
+      · show (mdBlocks _ _ _ _ _).1 = _
+        rw [hst2, List.foldl_append, List.foldl_cons, hst]
+  · have hb0 : s.buffer = [] := List.eq_nil_of_length_eq_zero (by omega)
+    simp only [hb, if_false]
+    rw [polyBlocks_eq_mdBlocks]
+    obtain ⟨bs2, hbs2, hm2, hlt2, hst2⟩ := mdBlocks_spec (fun s b => blk s b true) 16 (by omega)
+      c.length s.st c (Nat.le_refl _)
+    refine ⟨bs ++ bs2, hbs.append hbs2, ?_, ?_, ?_⟩
+    · simp only [hb0, List.nil_append, List.flatten_append, List.append_assoc]
+      rw [← hm2, hm, hb0]; simp
+    · simpa [hb0] using hlt2
+    · show (mdBlocks _ _ _ _ _).1 = _
+      rw [hst2, List.foldl_append, hst]
+
+theorem polyFold_inv {σ : Type} (blk : σ → Bytes → Bool → σ) (st0 : σ) :
+    ∀ (cs : List Bytes) (s : PolyState σ) (m : Bytes), PolyInv blk st0 s m →
+      PolyInv blk st0 (cs.foldl (polyUpdate blk) s) (m ++ cs.flatten)
+  | [], s, m, h => by simpa using h
+  | c :: cs, s, m, h => by
+    have := polyFold_inv blk st0 cs _ _ (polyUpdate_inv blk st0 s m c h)
+    simpa [List.append_assoc] using this
+
+theorem le_zeros : ∀ k : Nat, le (zeros k) = 0
+  | 0 => rfl
+  | k + 1 => by
+    have := le_zeros k
+    simp only [zeros] at this
+    simp [zeros, List.replicate_succ, le, this]
+
+theorem le_pad1 (b : Bytes) (k : Nat) : le (b ++ 1 :: zeros k) = le b + 2 ^ (8 * b.length) := by
+  rw [le_append]
+  simp only [le, le_zeros]
+  rw [Nat.pow_mul]
+  simp
+
+theorem polyNat_fold (r s : Nat) : ∀ (bs : List Bytes) (acc : Nat), AllLen 16 bs →
+    bs.foldl (fun st b => polyBlkNat st b true) (r, s, acc) =
+      (r, s, bs.foldl (fun a blk => ((a + le blk + 2 ^ (8 * blk.length)) * r) % Spec.Poly1305.p) acc)
+  | [], _, _ => rfl
+  | b :: bs, acc, h => by
+    have h1 : b.length = 16 := h b (by simp)
+    simp only [List.foldl_cons]
+    rw [← polyNat_fold r s bs _ (fun x hx => h x (by simp [hx]))]
+    simp [polyBlkNat, h1]
+
+theorem polyFinish_spec (r k : Nat) (sf : PolyState PolyNat) (m : Bytes)
+    (h : PolyInv polyBlkNat (r, k, 0) sf m) :
+    polyFinish polyBlkNat polyFinNat sf =
+      toLE 16 (((Spec.Sha256.blocks 16 m).foldl
+        (fun a blk => ((a + le blk + 2 ^ (8 * blk.length)) * r) % Spec.Poly1305.p) 0 + k) % 2 ^ 128) := by
+  obtain ⟨bs, hbs, hm, hlt, hst⟩ := h
+  rw [polyNat_fold _ _ bs 0 hbs] at hst
+  rw [hm, blocks_flatten_append 16 (by omega) bs _ hbs, List.foldl_append]
+  unfold polyFinish
+  rw [hst]
+  by_cases hb : sf.buffer.length > 0
+  · rw [if_pos hb, blocks_single 16 _ hb (by omega)]
+    simp only [List.foldl_cons, List.foldl_nil, polyBlkNat, polyFinNat, le_pad1]
+    simp [Nat.add_assoc]
+  · rw [if_neg hb]
+    have hb0 := List.eq_nil_of_length_eq_zero (Nat.eq_zero_of_not_pos hb)
+    rw [hb0, blocks_nil]
+    simp [polyFinNat]
+
+theorem poly1305_chunks_aux (key : Bytes) (cs : List Bytes) :
+    polyFinish polyBlkNat polyFinNat (cs.foldl (polyUpdate polyBlkNat) (polyInitNat key))
+      = Spec.Poly1305.mac key cs.flatten := by
+  have h0 : PolyInv polyBlkNat (polyInitNat key).st (polyInitNat key) [] :=
+    ⟨[], AllLen.nil 16, by simp [polyInitNat], by simp [polyInitNat], rfl⟩
+  have h1 := polyFold_inv polyBlkNat _ cs _ _ h0
+  simp only [List.nil_append] at h1
+  rw [polyFinish_spec _ _ _ _ h1]
+  unfold Spec.Poly1305.mac
+  simp only []
+  rw [chunks16_blocks]
+
+/-! ### HMAC / HKDF -/
+
+theorem hmacFold {σ : Type} (H : HashOps σ) : ∀ (cs : List Bytes) (s : HmacState σ),
+    cs.foldl (hmacUpdate H) s = ⟨cs.foldl H.update s.ictx, s.octx⟩
+  | [], _ => rfl
+  | c :: cs, s => by
+    simp only [List.foldl_cons]
+    rw [hmacFold H cs]
+    rfl
+
+theorem hmac_chunks_aux {σ : Type} (H : HashOps σ) (Hf : Bytes → Bytes)
+    (hH : ∀ cs : List Bytes, H.final (cs.foldl H.update H.init) = Hf cs.flatten) (key : Bytes) (cs : List Bytes) :
+    hmacFinal H (cs.foldl (hmacUpdate H) (hmacInit H key)) =
+      Hf (xorPad 0x5c H.W (if key.length > H.W then Hf key else key) ++
+        Hf (xorPad 0x36 H.W (if key.length > H.W then Hf key else key) ++ cs.flatten)) := by
+  rw [hmacFold]
+  have hk : H.final (H.update H.init key) = Hf key := by
+    have := hH [key]
+    simpa using this
+  simp only [hmacFinal, hmacInit, hk]
+  generalize (if key.length > H.W then Hf key else key) = k'
+  have h1 : H.final (cs.foldl H.update (H.update H.init (xorPad 0x36 H.W k'))) =
+      Hf (xorPad 0x36 H.W k' ++ cs.flatten) := by
+    have := hH (xorPad 0x36 H.W k' :: cs)
+    simpa using this
+  rw [h1]
+  have := hH [xorPad 0x5c H.W k', Hf (xorPad 0x36 H.W k' ++ cs.flatten)]
+  simpa using this
+
+/-- three updates then final, as in the HKDF expand loop -/
+theorem hmac3_aux {σ : Type} (H : HashOps σ) (Hf : Bytes → Bytes)
+    (hH : ∀ cs : List Bytes, H.final (cs.foldl H.update H.init) = Hf cs.flatten) (key a b c : Bytes) :
+    hmacFinal H (hmacUpdate H (hmacUpdate H (hmacUpdate H (hmacInit H key) a) b) c) =
+      Hf (xorPad 0x5c H.W (if key.length > H.W then Hf key else key) ++
+        Hf (xorPad 0x36 H.W (if key.length > H.W then Hf key else key) ++ (a ++ b ++ c))) := by
+  have := hmac_chunks_aux H Hf hH key [a, b, c]
+  simpa [List.append_assoc] using this
+
+section hkdf
+variable {σ : Type} (H : HashOps σ) (prk ctx : Bytes) (mac : Bytes → Bytes) (T : Nat → Bytes)
+
+/-- the first `n` blocks T(1) ‖ … ‖ T(n) -/
+def okmOf (T : Nat → Bytes) (n : Nat) : Bytes := (List.range n).flatMap fun i => T (i + 1)
+
+theorem okmOf_succ (n : Nat) : okmOf T (n + 1) = okmOf T n ++ T (n + 1) := by
+  simp [okmOf, List.range_succ, List.flatMap_append]
+
+theorem okmOf_length (out : Nat) (hlen : ∀ i, (T (i + 1)).length = out) : ∀ n, (okmOf T n).length = n * out
+  | 0 => by simp [okmOf]
+  | n + 1 => by
+    rw [okmOf_succ, List.length_append, okmOf_length out hlen n, hlen, Nat.succ_mul]
+
+theorem hkdfLoop_spec
+    (hmac : ∀ prev c, hmacFinal H (hmacUpdate H (hmacUpdate H (hmacUpdate H (hmacInit H prk) prev) ctx) [c])
+      = mac (prev ++ ctx ++ [c]))
+    (hTs : ∀ i, T (i + 1) = mac (T i ++ ctx ++ [UInt8.ofNat (i + 1)])) :
+    ∀ (k i : Nat), hkdfExpandLoop H prk ctx k (T i) (UInt8.ofNat (i + 1)) (okmOf T i) = okmOf T (i + k)
+  | 0, i => rfl
+  | k + 1, i => by
+    simp only [hkdfExpandLoop, hmac, ← hTs]
+    have hc : UInt8.ofNat (i + 1) + 1 = UInt8.ofNat (i + 1 + 1) := by
+      rw [UInt8.ofNat_add (i + 1) 1]; rfl
+    rw [hc, ← okmOf_succ, hkdfLoop_spec hmac hTs k (i + 1)]
+    congr 1; omega
+
+theorem hkdfExpand_spec
+    (hmac : ∀ prev c, hmacFinal H (hmacUpdate H (hmacUpdate H (hmacUpdate H (hmacInit H prk) prev) ctx) [c])
+      = mac (prev ++ ctx ++ [c]))
+    (hT0 : T 0 = [])
+    (hTs : ∀ i, T (i + 1) = mac (T i ++ ctx ++ [UInt8.ofNat (i + 1)]))
+    (hlen : ∀ i, (T (i + 1)).length = H.outLen) (hpos : 0 < H.outLen) (L : Nat) :
+    hkdfExpand H L ctx prk =
+      if L > 255 * H.outLen then .err
+      else .ok ((okmOf T ((L + H.outLen - 1) / H.outLen)).take L) := by
+  unfold hkdfExpand
+  by_cases hL : L > 255 * H.outLen
+  · simp [hL]
+  · rw [if_neg hL, if_neg hL]
+    have hloop := hkdfLoop_spec H prk ctx mac T hmac hTs (L / H.outLen) 0
+    have h00 : okmOf T 0 = [] := rfl
+    have h01 : UInt8.ofNat (0 + 1) = 1 := rfl
+    rw [hT0, h00, h01, Nat.zero_add] at hloop
+    simp only [hloop]
+    have hdm := Nat.div_add_mod L H.outLen
+    have hfl := okmOf_length T H.outLen hlen (L / H.outLen)
+    rw [Nat.mul_comm] at hfl
+    have hlt := Nat.mod_lt L hpos
+    by_cases hleft : L % H.outLen = 0
+    · have hceil : (L + H.outLen - 1) / H.outLen = L / H.outLen := by
+        have h1 : L + H.outLen - 1 = H.outLen * (L / H.outLen) + (H.outLen - 1) := by omega
+        have h2 : (H.outLen - 1) / H.outLen = 0 := Nat.div_eq_of_lt (by omega)
+        rw [h1, Nat.mul_add_div hpos, h2, Nat.add_zero]
+      simp only [hleft, ne_eq, not_true_eq_false, if_false]
+      rw [hceil, List.take_of_length_le]
+      rw [hfl]; omega
+    · have hceil : (L + H.outLen - 1) / H.outLen = L / H.outLen + 1 := by
+        have h1 : L + H.outLen - 1 = H.outLen * (L / H.outLen + 1) + (L % H.outLen - 1) := by
+          rw [Nat.mul_add]; omega
+        have h2 : (L % H.outLen - 1) / H.outLen = 0 := Nat.div_eq_of_lt (by omega)
+        rw [h1, Nat.mul_add_div hpos, h2, Nat.add_zero]
+      simp only [ne_eq, hleft, not_false_eq_true, if_true]
+      have hprev : (okmOf T (L / H.outLen)).drop ((okmOf T (L / H.outLen)).length -
+          (if L / H.outLen = 0 then 0 else H.outLen)) = T (L / H.outLen) := by
+        cases hn : L / H.outLen with
+        | zero => simp [okmOf, hT0]
+        | succ j =>
+          rw [okmOf_succ]
+          simp only [List.length_append, hlen, Nat.succ_ne_zero, if_false, Nat.add_sub_cancel]
+          exact List.drop_left
+      have ht : (okmOf T (L / H.outLen)).take L = okmOf T (L / H.outLen) :=
+        List.take_of_length_le (by rw [hfl]; omega)
+      have hl : L - (okmOf T (L / H.outLen)).length = L % H.outLen := by rw [hfl]; omega
+      rw [hprev, hmac, ← hTs, hceil, okmOf_succ, List.take_append, ht, hl]
+
+end hkdf
+
+/-! ### SHA-2 (Merkle–Damgård) -/
+
+/-- the buffer fill `(count / 8) % W` computed from the wrapped bit counter is the true `n % W` -/
+def CountOk (W cbits n : Nat) : Prop := ((8 * n) % 2 ^ cbits / 8) % W = n % W
+
+theorem countOk_of_fit {W cbits N n : Nat} (hfit : 8 * N < 2 ^ cbits) (hn : n ≤ N) : CountOk W cbits n := by
+  unfold CountOk
+  have h : 8 * n % 2 ^ cbits = 8 * n := Nat.mod_eq_of_lt (by omega)
+  rw [h, Nat.mul_div_cancel_left _ (by omega : 0 < 8)]
+
+theorem countOk_of_dvd {W cbits q : Nat} (hd : 2 ^ cbits = 8 * (W * q)) (n : Nat) : CountOk W cbits n := by
+  unfold CountOk
+  rw [hd, Nat.mul_mod_mul_left, Nat.mul_div_cancel_left _ (by omega : 0 < 8), Nat.mod_mul_right_mod]
+
+theorem toLE_mod (n v : Nat) : toLE n (v % 256 ^ n) = toLE n v := by
+  apply le_inj
+  · rw [toLE_length, toLE_length]
+  · rw [le_toLE, le_toLE, Nat.mod_mod]
+
+theorem toBE_mod_pow (cbits v : Nat) (hc : cbits % 8 = 0) :
+    toBE (cbits / 8) (v % 2 ^ cbits) = toBE (cbits / 8) v := by
+  have h : 2 ^ cbits = 256 ^ (cbits / 8) := by
+    have : cbits = 8 * (cbits / 8) := by omega
+    conv => lhs; rw [this, Nat.pow_mul]
+  unfold toBE
+  rw [h, toLE_mod]
+
+/-- state after absorbing `m`: the full blocks `bs` are folded into `h`, the rest is in `buf`,
+    `count` = bit length mod 2^cbits -/
+def MdInv {σ : Type} (C : σ → Bytes → σ) (W cbits : Nat) (iv : σ) (s : MdState σ) (m : Bytes) : Prop :=
+  ∃ bs : List Bytes, AllLen W bs ∧ m = bs.flatten ++ s.buf ∧ s.buf.length < W ∧
+    s.h = bs.foldl C iv ∧ s.count = (8 * m.length) % 2 ^ cbits
+
+theorem MdInv.rem {σ : Type} {C : σ → Bytes → σ} {W cbits : Nat} {iv : σ} {s : MdState σ} {m : Bytes}
+    (h : MdInv C W cbits iv s m) (hok : CountOk W cbits m.length) :
+    (s.count / 8) % W = s.buf.length ∧ m.length % W = s.buf.length := by
+  obtain ⟨bs, hbs, hm, hlt, _, hc⟩ := h
+  have hl : m.length = W * bs.length + s.buf.length := by
+    rw [hm, List.length_append, hbs.flatten_length]
+  have h2 : m.length % W = s.buf.length := by
+    rw [hl, Nat.mul_add_mod, Nat.mod_eq_of_lt hlt]
+  refine ⟨?_, h2⟩
+  rw [hc, hok, h2]
+
+theorem mdInit_inv {σ : Type} (C : σ → Bytes → σ) (W cbits : Nat) (hW : 0 < W) (iv : σ) :
+    MdInv C W cbits iv (mdInit iv) [] :=
+  ⟨[], AllLen.nil W, rfl, hW, rfl, by simp [mdInit]⟩
+
+theorem mdUpdate_inv {σ : Type} (C : σ → Bytes → σ) (W cbits : Nat) (hW : 0 < W) (iv : σ)
+    (s : MdState σ) (m c : Bytes) (h : MdInv C W cbits iv s m) (hok : CountOk W cbits m.length) :
+    MdInv C W cbits iv (mdUpdate C W cbits s c) (m ++ c) := by
+  have hr := (h.rem hok).1
+  obtain ⟨bs, hbs, hm, hlt, hh, hc⟩ := h
+  have hcnt : (s.count + 8 * c.length) % 2 ^ cbits = (8 * (m ++ c).length) % 2 ^ cbits := by
+    rw [hc, Nat.mod_add_mod, ← Nat.mul_add, ← List.length_append]
+  unfold mdUpdate
+  by_cases he : c.isEmpty = true
+  · have : c = [] := List.isEmpty_iff.mp he
+    subst this
+    simp only [List.isEmpty_nil, if_true, List.append_nil]
+    exact ⟨bs, hbs, hm, hlt, hh, hc⟩
+  · simp only [he, if_false, hr, hcnt, Bool.false_eq_true]
+    by_cases hs : c.length < W - s.buf.length
+    · simp only [hs, if_true]
+      exact ⟨bs, hbs, by simp [hm], by simp; omega, hh, rfl⟩
+    · simp only [hs, if_false]
+      obtain ⟨bs2, hbs2, hm2, hlt2, hh2⟩ := mdBlocks_spec C W hW (c.drop (W - s.buf.length)).length
+        (C s.h (s.buf ++ c.take (W - s.buf.length))) (c.drop (W - s.buf.length)) (Nat.le_refl _)
+      refine ⟨bs ++ (s.buf ++ c.take (W - s.buf.length)) :: bs2, ?_, ?_, hlt2, ?_, rfl⟩
+      · exact hbs.append (AllLen.cons (by simp; omega) hbs2)
+      · simp only [List.flatten_append, List.flatten_cons, List.append_assoc]
+        rw [← hm2, List.take_append_drop, hm, List.append_assoc]
+      · show (mdBlocks _ _ _ _ _).1 = _
+        rw [hh2, List.foldl_append, List.foldl_cons, hh]
+
+theorem mdFold_inv {σ : Type} (C : σ → Bytes → σ) (W cbits : Nat) (hW : 0 < W) (iv : σ) :
+    ∀ (cs : List Bytes) (s : MdState σ) (m : Bytes), MdInv C W cbits iv s m →
+      (∀ n, n ≤ (m ++ cs.flatten).length → CountOk W cbits n) →
+      MdInv C W cbits iv (cs.foldl (mdUpdate C W cbits) s) (m ++ cs.flatten)
+  | [], s, m, h, _ => by simpa using h
+  | c :: cs, s, m, h, hok => by
+    have h1 := mdUpdate_inv C W cbits hW iv s m c h (hok _ (by simp))
+    have := mdFold_inv C W cbits hW iv cs _ _ h1 (by simpa [List.append_assoc] using hok)
+    simpa [List.append_assoc] using this
+
+theorem toBE_length (n v : Nat) : (toBE n v).length = n := by
+  simp [toBE, toLE_length]
+
+theorem zeros_length (n : Nat) : (zeros n).length = n := by simp [zeros]
+
+theorem zeros_add (a b : Nat) : zeros (a + b) = zeros a ++ zeros b := by
+  simp [zeros, List.replicate_append_replicate]
+
+/-- the two-branch padding equals folding over the blocks of `m ‖ pad` -/
+theorem mdPadFinal_spec {σ : Type} (C : σ → Bytes → σ) (W cbits : Nat) (hW : 0 < W)
+    (hl : cbits / 8 < W) (iv : σ) (s : MdState σ) (m : Bytes) (h : MdInv C W cbits iv s m)
+    (hok : CountOk W cbits m.length)
+    (hcount : toBE (cbits / 8) ((8 * m.length) % 2 ^ cbits) = toBE (cbits / 8) (8 * m.length)) :
+    mdPadFinal C W cbits s =
+      (Spec.Sha256.blocks W (m ++ (0x80 :: zeros ((2 * W - 1 - cbits / 8 - m.length % W) % W)
+        ++ toBE (cbits / 8) (8 * m.length)))).foldl C iv := by
+  obtain ⟨hr, hr2⟩ := h.rem hok
+  obtain ⟨bs, hbs, hm, hlt, hh, hc⟩ := h
+  unfold mdPadFinal
+  simp only [hr, hr2]
+  rw [← hcount, ← hc]
+  conv => rhs; rw [hm, List.append_assoc]
+  rw [blocks_flatten_append W hW bs _ hbs, List.foldl_append, ← hh]
+  by_cases hs : s.buf.length < W - cbits / 8
+  · simp only [hs, if_true]
+    have hk : (2 * W - 1 - cbits / 8 - s.buf.length) % W = W - cbits / 8 - s.buf.length - 1 := by
+      have : 2 * W - 1 - cbits / 8 - s.buf.length = W + (W - cbits / 8 - s.buf.length - 1) := by omega
+      rw [this, Nat.add_mod_left, Nat.mod_eq_of_lt (by omega)]
+    rw [hk, blocks_single W _ (by simp; omega) (by simp [zeros_length, toBE_length]; omega)]
+    simp
+  · simp only [hs, if_false]
+    have hk : (2 * W - 1 - cbits / 8 - s.buf.length) % W = (W - s.buf.length - 1) + (W - cbits / 8) := by
+      rw [Nat.mod_eq_of_lt (by omega)]; omega
+    rw [hk, zeros_add]
+    have e : s.buf ++ (0x80 :: (zeros (W - s.buf.length - 1) ++ zeros (W - cbits / 8)) ++ toBE (cbits / 8) s.count)
+        = (s.buf ++ 0x80 :: zeros (W - s.buf.length - 1)) ++ (zeros (W - cbits / 8) ++ toBE (cbits / 8) s.count) := by
+      simp
+    rw [e, blocks_cons_block W hW _ _ (by simp [zeros_length]; omega),
+      blocks_single W _ (by simp [zeros_length, toBE_length]; omega) (by simp [zeros_length, toBE_length]; omega)]
+    simp
+
+/-- chunking theorem when the bit length fits the counter -/
+theorem md_chunks_aux {σ : Type} (C : σ → Bytes → σ) (W cbits : Nat) (hW : 0 < W)
+    (hl : cbits / 8 < W) (iv : σ) (cs : List Bytes) (hfit : 8 * cs.flatten.length < 2 ^ cbits) :
+    mdPadFinal C W cbits (cs.foldl (mdUpdate C W cbits) (mdInit iv)) =
+      (Spec.Sha256.blocks W (cs.flatten ++ (0x80 :: zeros ((2 * W - 1 - cbits / 8 - cs.flatten.length % W) % W)
+        ++ toBE (cbits / 8) (8 * cs.flatten.length)))).foldl C iv := by
+  have h := mdFold_inv C W cbits hW iv cs _ _ (mdInit_inv C W cbits hW iv)
+    (fun n hn => countOk_of_fit hfit (by simpa using hn))
+  simp only [List.nil_append] at h
+  exact mdPadFinal_spec C W cbits hW hl iv _ _ h (countOk_of_fit hfit (Nat.le_refl _))
+    (by rw [Nat.mod_eq_of_lt hfit])
+
+/-- chunking theorem for every length, when the counter wraps compatibly with the block size
+    (8·W divides 2^cbits) and the length field is the whole counter (8 ∣ cbits): both the model and
+    the specification then encode the bit length mod 2^cbits -/
+theorem md_chunks_wrap {σ : Type} (C : σ → Bytes → σ) (W cbits q : Nat) (hW : 0 < W) (hc : cbits % 8 = 0)
+    (hl : cbits / 8 < W) (hd : 2 ^ cbits = 8 * (W * q)) (iv : σ) (cs : List Bytes) :
+    mdPadFinal C W cbits (cs.foldl (mdUpdate C W cbits) (mdInit iv)) =
+      (Spec.Sha256.blocks W (cs.flatten ++ (0x80 :: zeros ((2 * W - 1 - cbits / 8 - cs.flatten.length % W) % W)
+        ++ toBE (cbits / 8) (8 * cs.flatten.length)))).foldl C iv := by
+  have h := mdFold_inv C W cbits hW iv cs _ _ (mdInit_inv C W cbits hW iv)
+    (fun n _ => countOk_of_dvd hd n)
+  simp only [List.nil_append] at h
+  exact mdPadFinal_spec C W cbits hW hl iv _ _ h (countOk_of_dvd hd _) (toBE_mod_pow _ _ hc)
+
+/-- SHA-256 streaming = specification for every chunk list (no length bound: the 64-bit counter and
+    the specification's 64-bit length field wrap identically) -/
+theorem sha256_chunks_all (cs : List Bytes) :
+    Spec.Sha256.digest (mdPadFinal Spec.Sha256.compress 64 64
+        (cs.foldl (mdUpdate Spec.Sha256.compress 64 64) (mdInit Spec.Sha256.iv)))
+      = Spec.Sha256.hash cs.flatten := by
+  rw [md_chunks_wrap Spec.Sha256.compress 64 64 (2 ^ 55) (by omega) (by omega) (by omega) (by decide)
+    Spec.Sha256.iv cs]
+  rfl
+
+theorem sha512_chunks_all (cs : List Bytes) :
+    Spec.Sha512.digest (mdPadFinal Spec.Sha512.compress 128 128
+        (cs.foldl (mdUpdate Spec.Sha512.compress 128 128) (mdInit Spec.Sha512.iv)))
+      = Spec.Sha512.hash cs.flatten := by
+  rw [md_chunks_wrap Spec.Sha512.compress 128 128 (2 ^ 118) (by omega) (by omega) (by omega) (by decide)
+    Spec.Sha512.iv cs]
+  unfold Spec.Sha512.hash
+  rw [sha512_blocks_eq]
+  rfl
+
+theorem sha256_digest_length (s : Spec.Sha256.State) : (Spec.Sha256.digest s).length = 32 := by
+  simp [Spec.Sha256.digest, List.range, List.range.loop, toBE_length]
+
+theorem sha512_digest_length (s : Spec.Sha512.State) : (Spec.Sha512.digest s).length = 64 := by
+  simp [Spec.Sha512.digest, List.range, List.range.loop, toBE_length]
+
+/-! ### BLAKE2b -/
+
+theorem getD_pad (b : Bytes) (k i : Nat) : (b ++ zeros k).toArray.getD i 0 = b.toArray.getD i 0 := by
+  simp only [Array.getD_eq_getD_getElem?, List.getElem?_toArray]
+  by_cases h : i < b.length
+  · rw [List.getElem?_append_left h]
+  · rw [List.getElem?_append_right (by omega), List.getElem?_eq_none (l := b) (by omega)]
+    simp [zeros, List.getElem?_replicate]
+    split <;> rfl
+
+theorem load64le_pad (b : Bytes) (k i : Nat) :
+    Spec.Blake2b.load64le (b ++ zeros k).toArray i = Spec.Blake2b.load64le b.toArray i := by
+  unfold Spec.Blake2b.load64le
+  simp only [getD_pad]
+
+/-- `compress` reads a short block as if zero-extended -/
+theorem compress_pad (h : Spec.Blake2b.State) (b : Bytes) (k t : Nat) (l : Bool) :
+    Spec.Blake2b.compress h (b ++ zeros k) t l = Spec.Blake2b.compress h b t l := by
+  unfold Spec.Blake2b.compress
+  simp only [load64le_pad]
+
+/-- chain of non-final compressions with counters t+128, t+256, … -/
+def b2Chain {σ : Type} (F : σ → Bytes → Nat → Bool → σ) (h : σ) (t : Nat) : List Bytes → σ
+  | [] => h
+  | b :: bs => b2Chain F (F h b (t + 128) false) (t + 128) bs
+
+theorem b2Chain_append {σ : Type} (F : σ → Bytes → Nat → Bool → σ) :
+    ∀ (as bs : List Bytes) (h : σ) (t : Nat),
+      b2Chain F h t (as ++ bs) = b2Chain F (b2Chain F h t as) (t + 128 * as.length) bs
+  | [], bs, h, t => by simp [b2Chain]
+  | a :: as, bs, h, t => by
+    simp only [List.cons_append, b2Chain, b2Chain_append F as bs, List.length_cons]
+    congr 1; omega
+
+theorem b2Chain_snoc {σ : Type} (F : σ → Bytes → Nat → Bool → σ) (bs : List Bytes) (b : Bytes) (h : σ) (t : Nat) :
+    b2Chain F h t (bs ++ [b]) = F (b2Chain F h t bs) b (t + 128 * bs.length + 128) false := by
+  rw [b2Chain_append]; rfl
+
+/-- state after absorbing `d` (key block, if any, followed by message bytes) through the lazy buffer -/
+def B2Inv {σ : Type} (F : σ → Bytes → Nat → Bool → σ) (h0 : σ) (s : B2State σ) (d : Bytes) : Prop :=
+  ∃ bs : List Bytes, AllLen 128 bs ∧ d = bs.flatten ++ s.buf ∧ s.buf.length ≤ 256 ∧
+    (bs ≠ [] → 128 ≤ s.buf.length) ∧ s.t = 128 * bs.length ∧ s.h = b2Chain F h0 0 bs ∧ s.last = false
+
+theorem b2Update_inv {σ : Type} (F : σ → Bytes → Nat → Bool → σ) (h0 : σ) :
+    ∀ (fuel : Nat) (s : B2State σ) (c d : Bytes), B2Inv F h0 s d →
+      (c = [] ∨ c.length + (if s.buf.length = 256 then 1 else 0) ≤ fuel) →
+      B2Inv F h0 (b2Update F fuel s c) (d ++ c) := by
+  intro fuel
+  induction fuel with
+  | zero =>
+    intro s c d h hf
+    have : c = [] := by
+      rcases hf with hf | hf
+      · exact hf
+      · exact List.eq_nil_of_length_eq_zero (by omega)
+    subst this
+    simpa [b2Update] using h
+  | succ fuel ih =>
+    intro s c d h hf
+    unfold b2Update
+    by_cases he : c.isEmpty = true
+    · have : c = [] := List.isEmpty_iff.mp he
+      subst this
+      simpa using h
+    · have hne : c ≠ [] := fun hc => he (by simp [hc])
+      have hcl : 0 < c.length := List.length_pos_iff.mpr hne
+      rcases hf with hf | hf
+      · exact absurd hf hne
+      simp only [he, Bool.false_eq_true, if_false]
+      obtain ⟨bs, hbs, hd, hle, hbig, ht, hh, hlast⟩ := h
+      by_cases hgt : c.length > 256 - s.buf.length
+      · simp only [hgt, if_true]
+        have hfl : (s.buf ++ c.take (256 - s.buf.length)).length = 256 := by
+          simp; omega
+        have key := ih
+          { s with h := F s.h ((s.buf ++ c.take (256 - s.buf.length)).take 128) (s.t + 128) false,
+                   t := s.t + 128, buf := (s.buf ++ c.take (256 - s.buf.length)).drop 128 }
+          (c.drop (256 - s.buf.length)) (d ++ c.take (256 - s.buf.length))
+          ⟨bs ++ [(s.buf ++ c.take (256 - s.buf.length)).take 128],
+            hbs.snoc (by rw [List.length_take, hfl]; rfl), by
+              simp only [List.flatten_append, List.flatten_cons, List.flatten_nil, List.append_nil,
+                List.append_assoc]
+              rw [List.take_append_drop, hd, List.append_assoc],
+            by rw [List.length_drop, hfl]; omega,
+            by intro _; rw [List.length_drop, hfl]; omega,
+            by simp only [List.length_append, List.length_cons, List.length_nil]; omega,
+            by rw [b2Chain_snoc, ← hh, ht]; simp,
+            hlast⟩
+          (Or.inr (by
+            simp only [List.length_drop, hfl]
+            split at hf <;> simp <;> omega))
+        rw [List.append_assoc, List.take_append_drop] at key
+        exact key
+      · simp only [hgt, if_false]
+        refine ⟨bs, hbs, by simp [hd], by simp; omega, ?_, ht, hh, hlast⟩
+        intro hb; have := hbig hb; simp; omega
+
+theorem b2Fold_inv {σ : Type} (F : σ → Bytes → Nat → Bool → σ) (h0 : σ) :
+    ∀ (cs : List Bytes) (s : B2State σ) (d : Bytes), B2Inv F h0 s d →
+      B2Inv F h0 (cs.foldl (fun s c => b2Update F (c.length + 1) s c) s) (d ++ cs.flatten)
+  | [], s, d, h => by simpa using h
+  | c :: cs, s, d, h => by
+    have h1 := b2Update_inv F h0 (c.length + 1) s c d h (Or.inr (by split <;> omega))
+    have := b2Fold_inv F h0 cs _ _ h1
+    simpa [List.append_assoc] using this
+
+theorem b2Init_inv {σ : Type} (F : σ → Bytes → Nat → Bool → σ) (paramInit : Nat → Nat → Bytes → Bytes → σ)
+    (outlen : Nat) (key salt personal : Bytes) (hk : key.length ≤ 128) :
+    B2Inv F (paramInit outlen key.length salt personal) (b2Init F paramInit outlen key salt personal)
+      (if key.isEmpty then [] else key ++ zeros (128 - key.length)) := by
+  unfold b2Init
+  by_cases he : key.isEmpty = true
+  · simp only [he, if_true]
+    exact ⟨[], AllLen.nil 128, rfl, by simp, by simp, rfl, rfl, rfl⟩
+  · simp only [he, Bool.false_eq_true, if_false]
+    have hne : key ≠ [] := fun hc => he (by simp [hc])
+    have hcl : 0 < key.length := List.length_pos_iff.mpr hne
+    have hkb : (key ++ zeros (128 - key.length)).length = 128 := by simp [zeros_length]; omega
+    have hne2 : (key ++ zeros (128 - key.length)).isEmpty = false := by
+      cases key with
+      | nil => exact absurd rfl hne
+      | cons x xs => rfl
+    have : b2Update F 2 ⟨paramInit outlen key.length salt personal, 0, [], false⟩ (key ++ zeros (128 - key.length))
+        = ⟨paramInit outlen key.length salt personal, 0, key ++ zeros (128 - key.length), false⟩ := by
+      simp only [b2Update, hne2, Bool.false_eq_true, if_false, hkb, List.length_nil, List.nil_append]
+      simp
+    rw [this]
+    exact ⟨[], AllLen.nil 128, rfl, by simp only [hkb]; omega, by simp, rfl, rfl, rfl⟩
+
+/-- `Spec.Blake2b.absorb` over an arbitrary compression function -/
+def b2Absorb {σ : Type} (F : σ → Bytes → Nat → Bool → σ) (h : σ) (t : Nat) : List Bytes → σ
+  | [] => h
+  | [b] => F h b (t + b.length) true
+  | b :: b' :: bs => b2Absorb F (F h b (t + 128) false) (t + 128) (b' :: bs)
+
+theorem absorb_eq : ∀ (l : List Bytes) (h : Spec.Blake2b.State) (t : Nat),
+    Spec.Blake2b.absorb h t l = b2Absorb Spec.Blake2b.compress h t l
+  | [], _, _ => rfl
+  | [_], _, _ => rfl
+  | b :: b' :: bs, h, t => by
+    simp only [Spec.Blake2b.absorb, b2Absorb]
+    exact absorb_eq (b' :: bs) _ _
+
+section b2final
+variable {σ : Type} (F : σ → Bytes → Nat → Bool → σ)
+
+theorem b2Absorb_cons (h : σ) (t : Nat) (b : Bytes) : ∀ (l : List Bytes), l ≠ [] →
+    b2Absorb F h t (b :: l) = b2Absorb F (F h b (t + 128) false) (t + 128) l
+  | [], hl => absurd rfl hl
+  | _ :: _, _ => rfl
+
+theorem b2Absorb_chain : ∀ (bs : List Bytes) (h : σ) (t : Nat) (last : Bytes),
+    b2Absorb F h t (bs ++ [last]) = F (b2Chain F h t bs) last (t + 128 * bs.length + last.length) true
+  | [], h, t, last => by simp [b2Absorb, b2Chain]
+  | b :: bs, h, t, last => by
+    rw [List.cons_append, b2Absorb_cons _ _ _ _ _ (by simp), b2Absorb_chain bs]
+    simp only [b2Chain, List.length_cons]
+    congr 1; omega
+
+theorem match_nonempty : ∀ (l : List Bytes), l ≠ [] →
+    (match l with
+      | [] => [[]]
+      | bs => bs) = l
+  | [], h => absurd rfl h
+  | _ :: _, _ => rfl
+
+theorem b2Final_spec (digest : σ → Nat → Bytes)
+    (hpad : ∀ (h : σ) (b : Bytes) (k t : Nat) (l : Bool), F h (b ++ zeros k) t l = F h b t l)
+    (h0 : σ) (s : B2State σ) (d : Bytes) (outlen : Nat) (h : B2Inv F h0 s d) :
+    b2Final F digest s outlen =
+      .ok (digest (b2Absorb F h0 0
+        (match Spec.Sha256.blocks 128 d with
+          | [] => [[]]
+          | bs => bs)) outlen) := by
+  obtain ⟨bs, hbs, hd, hle, hbig, ht, hh, hlast⟩ := h
+  unfold b2Final
+  simp only [hlast, Bool.false_eq_true, if_false]
+  rw [hd, blocks_flatten_append 128 (by omega) bs _ hbs]
+  by_cases hgt : s.buf.length > 128
+  · simp only [hgt, if_true]
+    have hsplit : Spec.Sha256.blocks 128 s.buf = [s.buf.take 128, s.buf.drop 128] := by
+      conv => lhs; rw [← List.take_append_drop 128 s.buf]
+      rw [blocks_cons_block 128 (by omega) _ _ (by rw [List.length_take]; omega),
+        blocks_single 128 _ (by rw [List.length_drop]; omega) (by rw [List.length_drop]; omega)]
+    rw [hsplit, match_nonempty _ (by simp)]
+    have : bs ++ [s.buf.take 128, s.buf.drop 128] = (bs ++ [s.buf.take 128]) ++ [s.buf.drop 128] := by simp
+    rw [this, b2Absorb_chain, b2Chain_snoc, ← hh, hpad, ht]
+    simp only [List.length_append, List.length_cons, List.length_nil, Nat.zero_add, Nat.mul_add,
+      Nat.mul_one]
+  · simp only [hgt, if_false]
+    by_cases hz : s.buf.length = 0
+    · have hb0 := List.eq_nil_of_length_eq_zero hz
+      have hbs0 : bs = [] := by
+        by_cases hb : bs = []
+        · exact hb
+        · have := hbig hb; omega
+      subst hbs0
+      simp only [hb0, blocks_nil, List.append_nil, b2Absorb, b2Chain] at hh ⊢
+      rw [hh, ht]
+      have := hpad h0 [] (128 - 0) (0 + 0) true
+      simpa using congrArg (fun x => B2Final.ok (digest x outlen)) this
+    · rw [blocks_single 128 _ (by omega) (by omega), match_nonempty _ (by simp), b2Absorb_chain, ← hh,
+        hpad, ht]
+      simp
+
+end b2final
+
+theorem blake2b_chunks_aux (outlen : Nat) (key salt personal : Bytes) (cs : List Bytes) (hk : key.length ≤ 64) :
+    b2Final Spec.Blake2b.compress Spec.Blake2b.digest
+        (cs.foldl (fun s c => b2Update Spec.Blake2b.compress (c.length + 1) s c)
+          (b2Init Spec.Blake2b.compress Spec.Blake2b.paramInit outlen key salt personal)) outlen
+      = .ok (Spec.Blake2b.hash outlen key salt personal cs.flatten) := by
+  have hi := b2Init_inv Spec.Blake2b.compress Spec.Blake2b.paramInit outlen key salt personal (by omega)
+  have hf := b2Fold_inv Spec.Blake2b.compress _ cs _ _ hi
+  rw [b2Final_spec Spec.Blake2b.compress Spec.Blake2b.digest compress_pad _ _ _ outlen hf]
+  unfold Spec.Blake2b.hash
+  simp only []
+  rw [absorb_eq, blake2b_blocks_eq]
+  rfl
+
+theorem generichash_aux (outlen : Nat) (msg key salt personal : Bytes) :
+    generichash Spec.Blake2b.compress Spec.Blake2b.paramInit Spec.Blake2b.digest outlen msg key salt personal =
+      if outlen = 0 ∨ outlen > 64 ∨ key.length > 64 then .err
+      else .ok (Spec.Blake2b.hash outlen key salt personal msg) := by
+  unfold generichash
+  by_cases hr : outlen = 0 ∨ outlen > 64 ∨ key.length > 64
+  · rw [if_pos hr, if_pos hr]
+  · rw [if_neg hr, if_neg hr]
+    have h := blake2b_chunks_aux outlen key salt personal [msg] (by omega)
+    simp only [List.foldl_cons, List.foldl_nil, List.flatten_cons, List.flatten_nil, List.append_nil] at h
+    simp only [h]
+
+theorem kdf_blake2b_aux (n : Nat) (id : UInt64) (ctx key : Bytes) (hc : ctx.length = 8) (hk : key.length = 32) :
+    kdfBlake2b Spec.Blake2b.compress Spec.Blake2b.paramInit Spec.Blake2b.digest n id ctx key =
+      if n < 16 ∨ n > 64 then .err
+      else .ok (Spec.Blake2b.hash n key (toLE 8 id.toNat ++ zeros 8) (ctx ++ zeros 8) []) := by
+  unfold kdfBlake2b
+  by_cases hr : n < 16 ∨ n > 64
+  · rw [if_pos hr, if_pos hr]
+  · rw [if_neg hr, if_neg hr, generichash_aux, if_neg (by omega), List.take_of_length_le (by omega)]
+
 end Sodium
